@@ -33,10 +33,11 @@ PROPS = {
     "C03": dict(level="exploration", engine="benum",
         technique="bounded-exhaustive enumeration of all tables (<=3/4 routes) x requests x matchers against a reference selection",
         level_text="Every table of up to 3 (thorough: 4) routes over 10 host patterns (with default ports, a wildcard that stands for nothing) x 6 paths, every request of 10 hosts x TLS x 9 paths, 3 matchers, glob matching on/off, is looked up in the real Table.Lookup / LookupHost and compared with a brute-force reference of the stated precedence; the enumeration is complete for that alphabet (exhaustive:true). Plus hand-built shapes the alphabet cannot hold: IPv6 literal hosts and 11-17 wildcard patterns matching one host.",
-        level_note="Small-scope: host patterns are exact names or a leading '*' wildcard; paths literal (plus trailing-* for the glob matcher). Patterns using '?', '{}' or carrying a default port are outside the alphabet.",
+        level_note="Small-scope: host patterns are exact names or a leading '*' wildcard; paths literal (plus trailing-* for the glob matcher). Host patterns without a star ({a,b}, [ab], ?) are covered one at a time next to exact hosts; their order among themselves is outside the alphabet.",
         units=[
         unit("c03", "route", ROUTE_COMMON + ["route/c03_test.go"], "^TestVerifC03"),
-    ], layers={"quick": ["c03-select", "c03-lookuphost", "c03-special"], "thorough": ["c03-select", "c03-lookuphost", "c03-special"]}),
+        unit("c03-grpc", "proxy", PROXY_COMMON + ["proxy/c03_grpc_test.go"], "^TestVerifC03Grpc"),
+    ], layers={"quick": ["c03-select", "c03-lookuphost", "c03-special", "c03-grpc"], "thorough": ["c03-select", "c03-lookuphost", "c03-special", "c03-grpc"]}),
     "C04": dict(level="exploration", engine="benum",
         technique="bounded-exhaustive enumeration of weight vectors and `route weight` programs; full round-robin cycles and every random-source answer enumerated",
         level_text="Every weight vector of 1..4 (thorough: 5) targets over 15 weights through `route add` and through NewTableCustom (differential), and every `route weight` form over 2 services x 4 tag sets, checked on the real weighTargets/setWeight/rrPicker/rndPicker against an independent computation of the documented rule; ring shares, one full round-robin cycle and every answer of the random source are enumerated, not sampled; the round-robin cursor is also set shortly before 2^8..2^33 lookups.",
